@@ -109,8 +109,12 @@ func c12RandPrefix(r *VRand, stats *VStats) netip.Prefix {
 	var bits int
 	switch r.Intn(8) {
 	case 0:
-		bits = 0
-		stats.Inc("prefix.len0")
+		if r.Chance(0.15) { // a /0 makes every probe of its set a hit: keep it rare
+			bits = 0
+			stats.Inc("prefix.len0")
+		} else {
+			bits = r.Intn(max + 1)
+		}
 	case 1:
 		bits = max
 		stats.Inc("prefix.host")
@@ -190,19 +194,55 @@ func TestVerifC12(t *testing.T) {
 	log.SetLevel(logrus.PanicLevel)
 
 	// --- stream 1: bit strings, kernel keys, set membership three ways
-	for si := 0; si < nSets; si++ {
+	// every prefix length of both families once, as a singleton set, with the boundary probes
+	// (first / last address inside, both neighbours outside, sibling block): no length is left to chance
+	var sweep []netip.Prefix
+	for L := 0; L <= 128; L++ {
+		a := c12RandAddr(r)
+		for !a.Is6() || a.Is4In6() {
+			a = c12RandAddr(r)
+		}
+		sweep = append(sweep, netip.PrefixFrom(a, L).Masked())
+	}
+	for L := 0; L <= 32; L++ {
+		var b [4]byte
+		binary.BigEndian.PutUint32(b[:], uint32(r.U64()))
+		sweep = append(sweep, netip.PrefixFrom(netip.AddrFrom4(b), L).Masked())
+		// and the same length written in IPv4-mapped form
+		sweep = append(sweep, netip.PrefixFrom(netip.AddrFrom16(netip.AddrFrom4(b).As16()), L+96).Masked())
+	}
+	for si := 0; si < nSets+len(sweep); si++ {
 		k := 1 + r.Intn(6)
 		if r.Chance(0.1) {
 			k = 20 + r.Intn(200)
 		}
 		ps := make([]netip.Prefix, 0, k)
+		if si < len(sweep) {
+			ps = append(ps, sweep[si])
+			k = 0
+			stats.Inc("set.length_sweep")
+		}
 		for i := 0; i < k; i++ {
 			p := c12RandPrefix(r, stats)
 			ps = append(ps, p)
 			if r.Chance(0.2) { // nested / duplicated
-				q := netip.PrefixFrom(p.Addr(), r.Intn(p.Bits()+1))
+				nb := r.Intn(p.Bits() + 1)
+				if nb == 0 && p.Bits() > 0 && r.Chance(0.8) {
+					nb = 1 + r.Intn(p.Bits())
+				}
+				q := netip.PrefixFrom(p.Addr(), nb)
 				ps = append(ps, q)
 				stats.Inc("prefix.nested")
+			}
+			if p.Addr().Is4() && r.Chance(0.25) {
+				// the IPv4 prefix together with its twins written as IPv6: ::ffff:a.b.c.d/N (the first N
+				// bits of the 128-bit form, a much larger set) and /N+96 (the same address set)
+				m := netip.AddrFrom16(p.Addr().As16())
+				ps = append(ps, netip.PrefixFrom(m, p.Bits()+96))
+				if r.Bool() {
+					ps = append(ps, netip.PrefixFrom(m, p.Bits()))
+				}
+				stats.Inc("prefix.v4_with_mapped_twin")
 			}
 		}
 		toks := make([]string, len(ps))
@@ -248,6 +288,19 @@ func TestVerifC12(t *testing.T) {
 		for i := 0; i < 4; i++ {
 			probes = append(probes, c12RandAddr(r))
 		}
+		for _, p := range ps {
+			if p.Addr().Is4() && len(probes) < 90 {
+				a4 := p.Addr().As4()
+				var compat, nat64 [16]byte
+				copy(compat[12:], a4[:]) // ::a.b.c.d
+				copy(nat64[:4], []byte{0x00, 0x64, 0xff, 0x9b})
+				copy(nat64[12:], a4[:]) // 64:ff9b::a.b.c.d
+				probes = append(probes, netip.AddrFrom16(compat), netip.AddrFrom16(nat64))
+			}
+		}
+		if si%16 == 0 {
+			probes = append(probes, netip.MustParseAddr("::ffff:0.0.0.0"), netip.MustParseAddr("::ffff:255.255.255.255"))
+		}
 		for _, a := range probes {
 			a16 := a.As16()
 			op := "match " + hex.EncodeToString(a16[:]) + " " + strings.Join(toks, " ")
@@ -268,6 +321,13 @@ func TestVerifC12(t *testing.T) {
 						stats.Inc("match.hit")
 					} else {
 						stats.Inc("match.miss")
+					}
+					if si < len(sweep) {
+						fam := "v6"
+						if ps[0].Addr().Is4() {
+							fam = "v4"
+						}
+						stats.Inc(fmt.Sprintf("sweep.%s.len%03d.%s", fam, ps[0].Bits(), c12Bool(tm)))
 					}
 					return fmt.Sprintf("trie=%s lpm=%s spec=%s", c12Bool(tm), c12Bool(lm), c12Bool(sp))
 				})
@@ -416,10 +476,44 @@ func TestVerifC12(t *testing.T) {
 			}
 			sets = append(sets, s)
 		}
+		// MAC sets (addSourceMac) interleaved: they take slots of the same table but are never shared,
+		// and a negated rule gets the zero MAC appended
+		type macSet struct {
+			macs [][6]byte
+			neg  bool
+		}
+		macAt := map[int]macSet{}
+		var macPool [][6]byte
+		for i := 0; i < 3; i++ {
+			var m [6]byte
+			binary.BigEndian.PutUint32(m[2:], uint32(r.U64()))
+			macPool = append(macPool, m)
+		}
+		for i := range sets {
+			if r.Chance(0.25) {
+				ms := macSet{neg: r.Bool()}
+				for j := 0; j <= r.Intn(3); j++ {
+					ms.macs = append(ms.macs, macPool[r.Intn(len(macPool))])
+				}
+				macAt[i] = ms
+				stats.Inc("share.mac_set")
+			}
+		}
 		var toks []string
 		for i, s := range sets {
 			if i > 0 {
 				toks = append(toks, "|")
+			}
+			if ms, ok := macAt[i]; ok {
+				if ms.neg {
+					toks = append(toks, "mac1")
+				} else {
+					toks = append(toks, "mac0")
+				}
+				for _, m := range ms.macs {
+					toks = append(toks, hex.EncodeToString(m[:]))
+				}
+				continue
 			}
 			for _, p := range s {
 				toks = append(toks, c12Tok(p))
@@ -437,6 +531,35 @@ func TestVerifC12(t *testing.T) {
 				f := &config_parser.Function{Name: "dip"}
 				ob := &routing.Outbound{Name: "proxy"}
 				var err error
+				if ms, ok := macAt[i]; ok {
+					f = &config_parser.Function{Name: "mac", Not: ms.neg}
+					if err = b.addSourceMac(f, append([][6]byte(nil), ms.macs...), ob); err != nil {
+						return "err:" + err.Error()
+					}
+					li := b.compiledRules[len(b.compiledRules)-1].lpmIndex
+					// property-level check on the real builder: the slot holds exactly the listed MACs as
+					// host routes in the 16-byte form (+ the zero MAC for a negated rule)
+					want := len(ms.macs)
+					if ms.neg {
+						want++
+					}
+					if int(li) >= len(b.simulatedLpmTries) || len(b.simulatedLpmTries[li]) != want {
+						return fmt.Sprintf("mac-slot-differs set=%d idx=%d", i, li)
+					}
+					for k, pf := range b.simulatedLpmTries[li] {
+						var m [6]byte
+						if k < len(ms.macs) {
+							m = ms.macs[k]
+						}
+						var a16 [16]byte
+						copy(a16[10:], m[:])
+						if pf != netip.PrefixFrom(netip.AddrFrom16(a16), 128) {
+							return fmt.Sprintf("mac-slot-differs set=%d idx=%d entry=%d", i, li, k)
+						}
+					}
+					idx = append(idx, fmt.Sprint(li))
+					continue
+				}
 				if (i+si)%2 == 0 {
 					err = b.addIp(f, s, ob)
 				} else {
